@@ -136,8 +136,26 @@ ASSUMPTIONS = [
 def run(prop, tier, seed, model_part=None):
     t0 = time.time()
     n = SEEDS[tier]
-    pairs = explore.run_cases(directed.for_property(prop))
+    dcases = directed.for_property(prop)
+    pairs = explore.run_cases(dcases)
     ndirected = len(pairs)
+    # stateless depth-first enumeration of ALL reply schedules (up to a preemption bound) of the directed cases and
+    # of the small model scenarios, on the real scheduler
+    dfs_cases = [dict(c, behaviour=dict(c["behaviour"]), policy={}) for c in dcases]
+    try:
+        from checks import model as _m
+
+        for name, over in _m.CONFIGS.get(prop, [])[:3]:
+            base, kw = _m.MODELS[name]
+            if kw.get("agents") or kw.get("faults"):
+                continue
+            sc = dict(base)
+            sc.update(over)
+            dfs_cases.append({"id": ["dfs-model", name, over], "scn": S.normalize(sc), "seed": seed + 17, "behaviour": {"kind": "random", "seed": seed + 17}, "policy": {}})
+    except ImportError:
+        pass
+    dfs_pairs = explore.run_dfs(dfs_cases, max_early=1 if tier == "quick" else 2, limit=250 if tier == "quick" else 6000)
+    pairs += dfs_pairs
     base = seed * 1_000_003
     for gi, (gname, gkw) in enumerate(PROFILES[prop]):
         lo = base + gi * 500_000
@@ -179,6 +197,7 @@ def run(prop, tier, seed, model_part=None):
         "exhaustive": False,
         "breakdown": {
             "directed_cases": ndirected,
+            "dfs_schedule_enumeration": {"cases": len(dfs_cases), "distinct_executions": len(dfs_pairs)},
             "suite_scenario_executions": nsuite,
             "replayed_model_behaviours": len(extra_pairs),
             "trace_validation_states": st["monitor"]["states"],
